@@ -2,6 +2,7 @@
 import glob
 import json
 import os
+import threading
 import vlib
 
 PID = "C14"
@@ -137,14 +138,20 @@ def binding_a(ck, exe, gencfg, tag, nt, samples):
         total += len(behs)
     os.unlink(path)
     # a behaviour whose prefix already failed only repeats that failure (its prefix is a behaviour of its own)
-    roots = 0
+    rootb = []
     for key, (beh, mm) in sorted(failed.items(), key=lambda kv: len(kv[1][0])):
         calls = json.loads(key)
         if any(json.dumps(calls[:k]) in failed for k in range(1, len(calls))):
             continue
-        roots += 1
-        ck.violation(signature(mm), {"binding": "A(replay)", "behaviour": beh, "step": mm["i"],
-                                     "why": mm["why"], "record": mm["rec"]})
+        rootb.append(beh)
+    # run the failing behaviours once more (fully logged) before reporting
+    roots = 0
+    if rootb:
+        recs, _ = vlib.run_driver(exe, vlib.to_script(rootb))
+        for mm in vlib.compare(rootb, recs, match):
+            roots += 1
+            ck.violation(signature(mm), {"binding": "A(replay)", "behaviour": rootb[mm["b"]], "step": mm["i"],
+                                         "why": mm["why"], "record": mm["rec"]})
     if total != gen.generated - 1:
         raise vlib.MachineryError("behaviour export incomplete: %d lines for %d transitions" % (total, gen.generated - 1))
     ck.cov["evaluations"] += total
@@ -302,16 +309,27 @@ def run(tier):
     ck = vlib.Check(PID, tier)
     exe = build()
 
-    # 1. the link structure (Tier 2) implements the ordered forest (Tier 1)
-    for mc in cfg["mc"]:
-        res = vlib.tlc("MC_NodeTree", mc, tag="MC_NodeTree-" + mc, deque=True)
-        ck.add_tlc(res, "exhaustive " + mc)
+    # 1. the link structure (Tier 2) implements the ordered forest (Tier 1); runs beside the replay
+    mcres = []
+
+    def model_check():
+        for mc in cfg["mc"]:
+            mcres.append((mc, vlib.tlc("MC_NodeTree", mc, tag="MC_NodeTree-" + mc, deque=True, workers=max(2, vlib.NCPU // 2))))
+    th = threading.Thread(target=model_check)
+    th.start()
 
     # 2. binding A: every transition replayed into the real code
     nt = set()
     samples = []
-    for g in cfg["gen"]:
-        binding_a(ck, exe, g, g.replace(".cfg", ""), nt, samples)
+    try:
+        for g in cfg["gen"]:
+            binding_a(ck, exe, g, g.replace(".cfg", ""), nt, samples)
+    finally:
+        th.join()
+    if len(mcres) != len(cfg["mc"]):
+        raise vlib.MachineryError("model checking run did not finish")
+    for mc, res in mcres:
+        ck.add_tlc(res, "exhaustive " + mc)
 
     # 3. binding B: recorded executions at production-like sizes validated by TLC
     hists = binding_b(ck, exe, cfg["nhist"], cfg["steps"], nt)
